@@ -81,20 +81,20 @@ type stepRecord struct {
 }
 
 type Scen struct {
-	r       *Rng
-	env     *Env
-	node    *Node
-	dir     string
-	role    string // out_sender, out_receiver, in_sender, in_receiver
-	chain   string
-	version uint8
-	id      *swap.SwapId
-	peer    string
-	self    string
-	scid    string
-	amount  uint64
-	held    *swap.SwapStateMachine
-	peerKey *btcec.PrivateKey
+	r            *Rng
+	env          *Env
+	node         *Node
+	dir          string
+	role         string // out_sender, out_receiver, in_sender, in_receiver
+	chain        string
+	version      uint8
+	id           *swap.SwapId
+	peer         string
+	self         string
+	scid         string
+	amount       uint64
+	held         *swap.SwapStateMachine
+	peerKey      *btcec.PrivateKey
 	lastPeerMsg  []byte
 	lastPeerType messages.MessageType
 	prevBlind    string
@@ -341,10 +341,13 @@ func (sc *Scen) isMaker() bool { return sc.role == "out_receiver" || sc.role == 
 func hexType(t messages.MessageType) string { return messages.MessageTypeToHexString(t) }
 
 type fsmOpts struct {
-	out   string
-	seed  uint64
-	n     int
-	procs int
+	out     string
+	seed    uint64
+	n       int
+	procs   int
+	monitor string // Coq function fsm_case -> bool evaluated on the observed scenario
+	imports string // extra "From PS Require Import ..." line for the monitor
+	focus   string // bias of the generator (property id), "" = uniform
 }
 
 func init() {
@@ -354,9 +357,12 @@ func init() {
 		seed := fs.Uint64("seed", 1, "seed")
 		n := fs.Int("n", 60, "scenarios")
 		procs := fs.Int("procs", 32, "parallel scenarios")
+		mon := fs.String("monitor", "fsm_monitor", "Coq monitor function (fsm_case -> bool)")
+		imp := fs.String("imports", "", "extra Coq import line for the monitor")
+		focus := fs.String("focus", "", "generator focus (property id)")
 		fs.Parse(args)
 		os.Setenv("PAYMENT_RETRY_TIME", "2")
-		return runFsm(fsmOpts{*out, *seed, *n, *procs})
+		return runFsm(fsmOpts{*out, *seed, *n, *procs, *mon, *imp, *focus})
 	})
 }
 
@@ -381,7 +387,7 @@ func runFsm(o fsmOpts) error {
 		go func(i int) {
 			defer wg.Done()
 			defer func() { <-sem }()
-			sc, err := runScenario(seeds[i], i, filepath.Join(dbdir, fmt.Sprintf("s%d.db", i)))
+			sc, err := runScenario(seeds[i], i, filepath.Join(dbdir, fmt.Sprintf("s%d.db", i)), o.focus)
 			if err != nil {
 				fmt.Fprintf(os.Stderr, "scenario %d: %v\n", i, err)
 				return
@@ -392,8 +398,8 @@ func runFsm(o fsmOpts) error {
 	wg.Wait()
 	os.RemoveAll(dbdir)
 
-	cf := NewCaseFile("From PS Require Import Model.Data Model.Actions Model.Fsm Gen.Tables Gen.ConstsSwap Model.FsmCorr.",
-		"fsm_case", "fsm_check", "fsm_monitor")
+	cf := NewCaseFile("From PS Require Import Model.Data Model.Actions Model.Fsm Gen.Tables Gen.ConstsSwap Model.FsmCorr.\n"+o.imports,
+		"fsm_case", "fsm_check", o.monitor)
 	for i, sc := range results {
 		if sc == nil {
 			continue
